@@ -392,6 +392,22 @@ def _unit_laws(seed):
     e, c = worst(jax.jit(jax.vmap(f))(D), D)
     return e, len(D), len(D), c
 
+  @reg('numpy variants quat_mul_np / rotate_np agree with quat_mul / rotate')
+  def _():
+    # integer (non-unit) quaternions too: both variants are polynomial
+    ints = np.array([x for x in itertools.product(range(-2, 3), repeat=4)
+                     if any(x)], dtype=float)
+    pi, qi = np.meshgrid(np.arange(0, len(ints), 5), np.arange(0, len(ints), 7))
+    p, q = ints[pi.ravel()], ints[qi.ravel()]
+    want = np.asarray(jax.jit(jax.vmap(math.quat_mul))(p, q))
+    got = np.array([math.quat_mul_np(a, b) for a, b in zip(p, q)])
+    e1, c1 = worst(np.abs(got - want).max(1), p, q)
+    v = V[(np.arange(len(q)) * 13) % len(V)]
+    wantr = np.asarray(jax.jit(jax.vmap(math.rotate))(v, q))
+    gotr = np.array([math.rotate_np(a, b) for a, b in zip(v, q)])
+    e2, c2 = worst(np.abs(gotr - wantr).max(1), v, q)
+    return max(e1, e2), 2 * len(p), 2 * len(p), c1 if e1 >= e2 else c2
+
   @reg('com.from_world / to_world round trip and rigid velocity field')
   def _():
     rng = np.random.RandomState(8 + seed)
